@@ -387,6 +387,17 @@ class _InlineTemps(ast.NodeTransformer):
                                 out.append(b)
                                 i += 2
                                 continue
+                    # a method value of a computed receiver, called in the next statement: `m = f(x).meth` / `r = m(a)` is
+                    # `m = f(x)` / `r = m.meth(a)` (the attribute is looked up before the arguments are evaluated either way)
+                    if use_x is not None and isinstance(a.value, ast.Attribute) and not _calls_nothing(a.value) and isinstance(use_x, ast.Call) and \
+                            isinstance(use_x.func, ast.Name) and use_x.func.id == t and loads.get(t, 0) == 1 and stores.get(t, 0) == 1 and t not in params and \
+                            not (isinstance(b, ast.Assign) and any(isinstance(x, ast.Name) and x.id == t for tg in b.targets for x in ast.walk(tg))):
+                        use_x.func = ast.copy_location(ast.Attribute(value=use_x.func, attr=a.value.attr, ctx=ast.Load()), use_x.func)
+                        a.value = a.value.value
+                        out.append(a)
+                        out.append(b)
+                        i += 2
+                        continue
                     # a named condition that calls nothing, read as the first thing the next statement evaluates:
                     # `ok = x is not None` / `return ok and y` -> `return x is not None and y`
                     if use_x is not None and not isinstance(use_x, ast.Name) and loads.get(t, 0) == 1 and stores.get(t, 0) == 1 and t not in params and \
